@@ -790,7 +790,7 @@ class Ev:
                 raise self.err("membership test on a non-constant", n, mod)
             return r if isinstance(op, ast.In) else not r
         for u, v in ((a, b), (b, a)):
-            if is_sym(u) and not u.is_number and u.is_positive and is_sym(v) and v == 0 and isinstance(op, (ast.Eq, ast.NotEq)):
+            if is_sym(u) and u.is_Symbol and u.is_positive and u.is_integer and is_sym(v) and v == 0 and isinstance(op, (ast.Eq, ast.NotEq)):
                 return isinstance(op, ast.NotEq)
         if const(a) and const(b):
             x, y = py(a), py(b)
